@@ -64,6 +64,7 @@ def gen_cases(tier, rng):
             if r == 1: ops.append("A")
             if r <= 3: ops.append("V")
             if r in (2, 4): ops.append("F")          # applyToAllElements visits every element of every block once
+            if r == 5: ops.append(rng.choice(["B", "b"]) ); ops.append("V")      # move-assignment into an object that already owns another buffer
         ops.append("V")
         cases.append("mem %d %d %s %s" % (lid, len(ks), " ".join(ks), " ".join(ops)))
     return cases
